@@ -24,6 +24,7 @@ import (
 	"io"
 	"net"
 	"os"
+	"runtime"
 	"strings"
 	"sync"
 	"sync/atomic"
@@ -607,8 +608,16 @@ func (r *c25SrvRig) exec(op c25SrvOp) string {
 	case c25ADumpIn:
 		defer r.markAPI()()
 		if rib := r.srv.GetRIBIn(r.v, pip, packet.AFIIPv4, packet.SAFIUnicast); rib != nil {
-			for _, rt := range rib.Dump() {
-				_ = rt.ToProto()
+			// what the RIS / gRPC API readers do; repeated so that a reader is likely to be active while the
+			// session stores a new path
+			for k := 0; k < 4; k++ {
+				for _, rt := range rib.Dump() {
+					_ = rt.ToProto()
+					if got := rib.Get(rt.Prefix()); got != nil {
+						_ = got.ToProto()
+					}
+				}
+				runtime.Gosched()
 			}
 		}
 		return "api_dump_rib_in"
